@@ -173,6 +173,17 @@ var classes = []evid.Class{
 		td := jgen.TypeDesc{K: "struct", Fields: []jgen.FieldDesc{{Name: "EmbA", Emb: true, T: jgen.TypeDesc{K: "@EmbA"}}, {Name: "Deep", Emb: true, T: jgen.TypeDesc{K: "@Deep"}}}}
 		return witnessCase(td, jgen.Recipe{Elems: []jgen.Recipe{{Elems: []jgen.Recipe{{}, {}, {}}}, {Elems: []jgen.Recipe{{Elems: []jgen.Recipe{{}, {}, {}}}, {}}}}})
 	}},
+	{Name: "json-named-array-codec-shared-across-addressability", Witness: func() *evid.Failure {
+		// MArrFirst{M map[string]ArrMPtr; P *ArrMPtr; A ArrMPtr} by value, ArrMPtr [1]MPtr: the map values are not addressable,
+		// the pointee of P is and must use (*MPtr).MarshalJSON
+		e := jgen.Recipe{Elems: []jgen.Recipe{{Elems: []jgen.Recipe{{}}}}} // [1]MPtr{{S: ""}}
+		return witnessCase(jgen.TypeDesc{K: "@MArrFirst"}, jgen.Recipe{Elems: []jgen.Recipe{{Nil: true}, {Elems: []jgen.Recipe{e}}, e}})
+	}},
+	{Name: "json-embedded-pointer-fields-not-addressable", Witness: func() *evid.Failure {
+		// SE10{*InnerMP; Y int} by value, InnerMP{X MPtr; T TPtr}: X and T are reached through a pointer
+		in := jgen.Recipe{Elems: []jgen.Recipe{{Elems: []jgen.Recipe{{}}}, {Elems: []jgen.Recipe{{}}}}}
+		return witnessCase(jgen.TypeDesc{K: "@SE10"}, jgen.Recipe{Elems: []jgen.Recipe{{Elems: []jgen.Recipe{in}}, {}}})
+	}},
 	{Name: clsStringOnMarshaler, Witness: func() *evid.Failure {
 		tg := ",string"
 		td := jgen.TypeDesc{K: "struct", Fields: []jgen.FieldDesc{{Name: "F", Tag: &tg, T: jgen.TypeDesc{K: "@ByteM"}}}}
